@@ -348,6 +348,8 @@ def run(chk):
             chk.engine_stats[k_] = chk.engine_stats.get(k_, 0) + eng.stats[k_]
     containers(chk)
     dispatch_exactness(chk)
+    from . import c20
+    c20.strict_error_roundtrip(chk, "C15")   # the error objects inside a batch result go through ErrorObject.to_dict / from_dict: exact, '' is not None
     bounded_sanity(chk)
 
 
@@ -552,3 +554,29 @@ def dispatch_exactness(chk):
 def json_short(o):
     import json
     return json.dumps(o)[:600]
+
+
+def serialized_text_is_ascii(chk, prefix="C16"):
+    """operation/child.py compares len(serialized_result) - a CHARACTER count - with the 256 KB checkpoint limit.  That is the UTF-8 size only if the
+    text is pure ASCII, which json.dumps guarantees with its default ensure_ascii=True: every json.dumps call of the default serializer keeps it"""
+    for label, mk in (("str", lambda e, s, h: fresh("str", "v")), ("list", lambda e, s, h: s.alloc("list", {"__kind__": "glist", "len": z3.Int("n_items"), "elem": new_child(e, s, "c")}))):
+        eng, hooks = make_engine(chk)
+        install_ih(chk, eng)
+        st = St()
+        for a in inverse_axioms():
+            st.assume(a)
+        v = mk(eng, st, hooks)
+        cls = eng.program.cls(SER)
+        made = eng.construct(cls, [], {}, st)
+        self_, st = made[0][1], made[0][2]
+        n = 0
+        for k, text, s in eng.run(cls.find_method("serialize"), [self_, v], st=st):
+            if k != "val":
+                continue
+            dumps = [e for e in s.trace if e.kind == "dumps"]
+            flags = [s.ghost.get("dumps", {}).get(e.text.t.get_id(), (None, {}))[1] for e in dumps]
+            ok = bool(dumps) and all(f.get("ensure_ascii", True) is True for f in flags)
+            n += 1
+            chk.prove(f"{prefix}.serdes.ascii_text.{label}", s.pc, z3.BoolVal(ok),
+                      desc="every json.dumps call of the default serializer keeps ensure_ascii=True: the serialized text is pure ASCII, so its length in characters (what the 256 KB test measures) is its size in bytes")
+        chk.paths += n
